@@ -20,6 +20,8 @@ func init() {
 		Assumptions: []string{"each transfer rule states a fact that holds on normal completion of the instruction (not decided here)"},
 		Run:         runC15,
 		Mutants: []Mutant{
+			{Name: "worklist-keeps-queued-bit-during-visit", File: "analysis/dfa/dense/forward.go", Rule: "R15.5", KeyPart: "dequeue-clears-membership-bit",
+				Old: "\theap.Pop(h)\n\th.inQueue[nid/64] &^= 1 << (nid % 64)\n", New: "\theap.Pop(h)\n"},
 			{Name: "cow-clone-skipped-when-growing", File: "analysis/facts/nilness/nilness.go", Rule: "R15.4", KeyPart: "state).set::",
 				Old: "\t\ts.cloned = true\n\t\ts.m = slices.Clone(s.m)\n\t}\n\tif num >= len(s.m) {\n\t\ts.m = append(s.m, make([]ValueNilness, num-len(s.m)+1)...)\n\t}\n\ts.m[num] = value\n", New: "\t\ts.cloned = true\n\t\tif num < len(s.m) {\n\t\t\ts.m = slices.Clone(s.m)\n\t\t}\n\t}\n\tif num >= len(s.m) {\n\t\ts.m = append(s.m, make([]ValueNilness, num-len(s.m)+1)...)\n\t}\n\ts.m[num] = value\n"},
 			{Name: "cow-setOuter-writes-shared", File: "analysis/facts/nilness/nilness.go", Rule: "R15.4", KeyPart: "setOuter::writes-only-its-own-copy",
@@ -552,6 +554,17 @@ func runC15(c *Ctx) {
 	// once per out-edge on the same in-state; a state may write into (or grow)
 	// its slice only after it has taken a private copy. "cloned" without a
 	// clone makes the refinement for one successor overwrite the other's.
+	// R15.5: a summary is read from the solver's result; if the solver stops
+	// before the fixpoint (a block that is its own successor never re-evaluated,
+	// a store without re-enqueueing), loop-carried states are missing and the
+	// summary claims NeverNil/AlwaysNil for values that are not. The dense
+	// solver's re-enqueue pairing is therefore part of this property too (same
+	// obligations as C13 R13.3).
+	c.Rule("R15.5", func() {
+		c.Floor("R15.5", 7)
+		denseSolverObligations(c)
+	})
+
 	c.Rule("R15.4", func() {
 		c.Floor("R15.4", 6)
 		nWrites := 0
